@@ -331,6 +331,7 @@ def run(m, tier):
     results.append(one_taint.helper_table_rule(m, "C19.R13"))
     from rules import one_roundtrip
     results.append(one_roundtrip.roundtrip_rule(m, "C19.R14"))
+    results.append(one_roundtrip.block_structure_rule(m, "C19.R15"))
     expl = ("Decides structural clauses of C19 over the statement classes of fparser.one: the literal keyword prefix each printer emits "
             "(lower-cased as the reader does) is a viable prefix of the class's own match regex (prefix viability on the sre parse "
             "tree); every block statement names an END class whose regex accepts the `END <blocktype> [name]` line that class prints; "
